@@ -29,3 +29,30 @@ func init() {
 func init() {
 	registry["C20"] = unit.CheckC20
 }
+
+func init() {
+	registry["C17"] = unit.CheckC17
+}
+
+func init() {
+	registry["C15"] = func(run *harness.Run) int {
+		fs, ev, inc := unit.CheckC15Registry(run)
+		cov := map[string]interface{}{
+			"evaluations":         ev["registry_sequences_exhaustive"].(int) + ev["concurrent_histories"].(int),
+			"distinct_nontrivial": ev["registry_sequences_with_issue_and_cancel"].(int),
+			"rule":                "registry laws: every sequence of For / CancelOlderThan / Shutdown up to the stated length over heights {1,2,3} x views {0,1,MaxUint64} on the real state.ViewContexts next to a reference model, checked after every step (For fails iff shut down or below the cancel mark; same context for a live position; cancelled iff a later CancelOlderThan was above it or Shutdown; nothing at or above the mark touched); 3-client concurrent histories of the same operations plus Err() observations checked for linearizability with porcupine; non-trivial = a context was both issued and cancelled in the sequence",
+			"samples":             ev["registry_samples"],
+			"exhaustive":          true,
+		}
+		for k, v := range ev {
+			cov[k] = v
+		}
+		run.WriteEvidence("exploration", cov, []string{"porcupine v1.3.0 as linearizability checker", "context identity is pointer identity"}, len(fs))
+		fmt.Printf("C15 %s: sequences=%v histories=%v linearizable=%v\n", run.Tier, ev["registry_sequences_exhaustive"], ev["concurrent_histories"], ev["concurrent_histories_linearizable"])
+		return run.Conclude(fs, inc)
+	}
+}
+
+func init() {
+	registry["C02"] = unit.CheckC02
+}
